@@ -43,6 +43,15 @@ def run(ctx, rep):
         rep.analysed["K character classes"] = sorted(tab["classes"])
         rep.check(tab["init"] == {"state": tab["states"][0], "pos": "int:0", "start": "None", "end": "None"} or (tab["init"]["pos"] == "int:0" and tab["init"]["start"] == "None" and tab["init"]["end"] == "None"),
                   "K", "C18|K|initial", cfg.where(f), "the scan starts with position 0 and no markers: %r" % (tab["init"],), sample={"initial": tab["init"]})
+        # K0: all-inputs slice safety on the table
+        rep.rule("K0", "ALL inputs, on the extracted table (every transition consumes >= 1 byte, exactly 1 for an ASCII class): a begin marker is at least k transitions away from the start and from the last end mark "
+                       "(k = the constant in `pos - k`, read from the returned slice input[len-(pos-k) .. len-end]), and the k characters consumed last before it are single-byte: no underflow, start <= end, character boundaries")
+        try:
+            probs = scanner.slice_safety(tab)
+        except Unsupported as e:
+            probs = ["not extractable (fail closed): %s" % e]
+        rep.check(not probs, "K0", "C18|K0|slice-safety", cfg.where(f), "the doc-comment slice of find_content_string can be ill-formed (panic) for some input: %s" % "; ".join(probs),
+                  witness={"text": "x /**/ y"} if probs else None, sample={"margin": scanner.margin_of(tab) if not probs else None, "transitions": len(tab["trans"])})
         depth = 3 if ctx.tier == "thorough" else 2
         n = 0
         bad = None
